@@ -1124,3 +1124,73 @@ package cose
 //@   ensures refused [C15]: (k.Ops != nil && !(exists i Int :: 0 <= i && i < len(k.Ops) && k.Ops[i] == 2)) ==> result1 == ErrOpNotSupported
 //@   ensures err_nil: result1 != nil ==> result0 == nil
 //@   modifies frame [C18]: nothing
+
+//@ func NewKeyOKP
+//@   ensures ok [C14]: result1 == nil ==> result0 != nil && fresh(result0) && alg == -8 && result0.Type == 1 && result0.Algorithm == alg
+//@         && result0.Params != nil && fresh(result0.Params) && result0.Params[int64(-1)] == Curve(6) && int64(-1) in result0.Params
+//@         && ((int64(-2) in result0.Params) <==> x != nil) && (x != nil ==> result0.Params[int64(-2)] == x)
+//@         && ((int64(-4) in result0.Params) <==> d != nil) && (d != nil ==> result0.Params[int64(-4)] == d)
+//@         && result0.Ops == nil && result0.ID == nil && result0.BaseIV == nil
+//@   ensures err_nil: result1 != nil ==> result0 == nil
+//@   modifies frame [C18]: nothing
+
+//@ func NewKeyEC2
+//@   ensures ok [C14]: result1 == nil ==> result0 != nil && fresh(result0) && (alg == -7 || alg == -35 || alg == -36) && result0.Type == 2 && result0.Algorithm == alg
+//@         && result0.Params != nil && fresh(result0.Params) && int64(-1) in result0.Params && result0.Params[int64(-1)] == Curve(alg == -7 ? 1 : (alg == -35 ? 2 : 3))
+//@         && ((int64(-2) in result0.Params) <==> x != nil) && (x != nil ==> result0.Params[int64(-2)] == x)
+//@         && ((int64(-3) in result0.Params) <==> y != nil) && (y != nil ==> result0.Params[int64(-3)] == y)
+//@         && ((int64(-4) in result0.Params) <==> d != nil) && (d != nil ==> result0.Params[int64(-4)] == d)
+//@         && result0.Ops == nil && result0.ID == nil && result0.BaseIV == nil
+//@         && keyShapeOK(2, result0.Params, alg)
+//@   ensures err_nil: result1 != nil ==> result0 == nil
+//@   modifies frame [C18]: nothing
+
+//@ func NewKeyFromPublic
+//@   requires valid: validPub(pub) && (pub is *ecdsa.PublicKey ==> pub.(*ecdsa.PublicKey).X != nil && pub.(*ecdsa.PublicKey).Y != nil)
+//@   ensures ec [C14]: result1 == nil && pub is *ecdsa.PublicKey ==> result0 != nil && result0.Type == 2
+//@         && result0.Algorithm == (pub.(*ecdsa.PublicKey).Curve == curve_p256 ? -7 : (pub.(*ecdsa.PublicKey).Curve == curve_p384 ? -35 : -36))
+//@         && be(bytes(pBytes(result0.Params, -2))) == abs(bigval(pub.(*ecdsa.PublicKey).X)) && be(bytes(pBytes(result0.Params, -3))) == abs(bigval(pub.(*ecdsa.PublicKey).Y))
+//@         && !(int64(-4) in result0.Params)
+//@   ensures ed [C14]: result1 == nil && pub is ed25519.PublicKey ==> result0 != nil && result0.Type == 1 && result0.Algorithm == -8
+//@         && pBytes(result0.Params, -2) == pub.(ed25519.PublicKey) && !(int64(-4) in result0.Params)
+//@   ensures other [C14]: !(pub is *ecdsa.PublicKey) && !(pub is ed25519.PublicKey) ==> result1 == ErrInvalidPubKey
+//@   ensures err_nil: result1 != nil ==> result0 == nil
+//@   modifies frame [C18]: nothing
+
+//@ func NewKeyFromPrivate
+//@   requires valid: (priv is *ecdsa.PrivateKey ==> priv.(*ecdsa.PrivateKey) != nil && priv.(*ecdsa.PrivateKey).PublicKey.X != nil && priv.(*ecdsa.PrivateKey).PublicKey.Y != nil && priv.(*ecdsa.PrivateKey).D != nil)
+//@         && (priv is ed25519.PrivateKey ==> len(priv.(ed25519.PrivateKey)) == 64)
+//@   ensures ec [C14]: result1 == nil && priv is *ecdsa.PrivateKey ==> result0 != nil && result0.Type == 2
+//@         && be(bytes(pBytes(result0.Params, -2))) == abs(bigval(priv.(*ecdsa.PrivateKey).PublicKey.X)) && be(bytes(pBytes(result0.Params, -3))) == abs(bigval(priv.(*ecdsa.PrivateKey).PublicKey.Y))
+//@         && be(bytes(pBytes(result0.Params, -4))) == abs(bigval(priv.(*ecdsa.PrivateKey).D))
+//@   ensures ed [C14]: result1 == nil && priv is ed25519.PrivateKey ==> result0 != nil && result0.Type == 1 && result0.Algorithm == -8
+//@         && bytes(pBytes(result0.Params, -2)) == bytes(priv.(ed25519.PrivateKey)[32:]) && bytes(pBytes(result0.Params, -4)) == bytes(priv.(ed25519.PrivateKey)[:32])
+//@   ensures other [C14]: !(priv is *ecdsa.PrivateKey) && !(priv is ed25519.PrivateKey) ==> result1 == ErrInvalidPrivKey
+//@   ensures err_nil: result1 != nil ==> result0 == nil
+//@   modifies frame [C18]: nothing
+
+// value v is a byte string of exactly n bytes: x left-padded with zeros (RFC 9053 7.1.1: coordinates keep their leading zeros)
+//@ spec paddedTo(v any, x []byte, n Int) Bool = any_isbytes(v) && len(anybytes(v)) == n && len(x) <= n
+//@       && bytes(anybytes(v)[n - len(x):]) == bytes(x) && (forall i Int :: 0 <= i && i < n - len(x) ==> anybytes(v)[i] == 0)
+
+//@ func (*Key).MarshalCBOR
+//@   requires nonnil: k != nil
+//@   ensures out [C08, C14]: (err == nil ==> fresh(result) && len(result) > 0) && (err != nil ==> result == nil)
+//@   modifies frame [C18]: nothing
+//@   loop 1 invariant copied [C14]: forall q any :: q in seen && q is int64 ==> (q in tmp && tmp[q] == k.Params[q])
+//@   loop 1 invariant seen_dom [C14]: forall q any :: q in seen ==> q in k.Params
+//@   loop 1 invariant tmp_fresh [C14]: tmp != nil && fresh(tmp) && fresh(existing) && existing != nil && int64(1) in tmp
+//@   loop 1 invariant existing_fwd [C14]: forall q any :: q in seen ==> normKey(q) in existing
+//@   callsite pad_x_len [C14] EncMode.Marshal#1: int64Labels(k.Params) && k.Type == 2 && sizeOf(pCurve(k.Params)) > 0 && len(pBytes(k.Params, -2)) > 0 && len(pBytes(k.Params, -2)) <= sizeOf(pCurve(k.Params))
+//@         ==> arg1 is map[any]any && int64(-2) in arg1.(map[any]any) && any_isbytes(arg1.(map[any]any)[int64(-2)]) && len(anybytes(arg1.(map[any]any)[int64(-2)])) == sizeOf(pCurve(k.Params))
+//@   callsite pad_x_val [C14] EncMode.Marshal#1: int64Labels(k.Params) && k.Type == 2 && sizeOf(pCurve(k.Params)) > 0 && len(pBytes(k.Params, -2)) > 0 && len(pBytes(k.Params, -2)) <= sizeOf(pCurve(k.Params))
+//@         ==> bytes(anybytes(arg1.(map[any]any)[int64(-2)])[sizeOf(pCurve(k.Params)) - len(pBytes(k.Params, -2)):]) == bytes(pBytes(k.Params, -2))
+//@   callsite pad_x_zeros [C14] EncMode.Marshal#1: int64Labels(k.Params) && k.Type == 2 && sizeOf(pCurve(k.Params)) > 0 && len(pBytes(k.Params, -2)) > 0 && len(pBytes(k.Params, -2)) <= sizeOf(pCurve(k.Params))
+//@         ==> (forall i Int :: 0 <= i && i < sizeOf(pCurve(k.Params)) - len(pBytes(k.Params, -2)) ==> anybytes(arg1.(map[any]any)[int64(-2)])[i] == 0)
+//@   callsite pad_y_len [C14] EncMode.Marshal#1: int64Labels(k.Params) && k.Type == 2 && sizeOf(pCurve(k.Params)) > 0 && len(pBytes(k.Params, -3)) > 0 && len(pBytes(k.Params, -3)) <= sizeOf(pCurve(k.Params))
+//@         ==> arg1 is map[any]any && int64(-3) in arg1.(map[any]any) && any_isbytes(arg1.(map[any]any)[int64(-3)]) && len(anybytes(arg1.(map[any]any)[int64(-3)])) == sizeOf(pCurve(k.Params))
+//@   callsite pad_y_val [C14] EncMode.Marshal#1: int64Labels(k.Params) && k.Type == 2 && sizeOf(pCurve(k.Params)) > 0 && len(pBytes(k.Params, -3)) > 0 && len(pBytes(k.Params, -3)) <= sizeOf(pCurve(k.Params))
+//@         ==> bytes(anybytes(arg1.(map[any]any)[int64(-3)])[sizeOf(pCurve(k.Params)) - len(pBytes(k.Params, -3)):]) == bytes(pBytes(k.Params, -3))
+//@   callsite pad_y_zeros [C14] EncMode.Marshal#1: int64Labels(k.Params) && k.Type == 2 && sizeOf(pCurve(k.Params)) > 0 && len(pBytes(k.Params, -3)) > 0 && len(pBytes(k.Params, -3)) <= sizeOf(pCurve(k.Params))
+//@         ==> (forall i Int :: 0 <= i && i < sizeOf(pCurve(k.Params)) - len(pBytes(k.Params, -3)) ==> anybytes(arg1.(map[any]any)[int64(-3)])[i] == 0)
+//@   callsite common [C08, C14, C15] EncMode.Marshal#1: arg1 is map[any]any && int64(1) in arg1.(map[any]any)
